@@ -46,7 +46,7 @@ def _env():
 def _fork_outcome(opn, vn):
     ns, pool, ops, cleanup = _env()
     try:
-        return repr(ops[opn](pool[vn]()))
+        return repr(WS.run_op(ops, opn, pool[vn]()))
     finally:
         cleanup()
 
@@ -65,8 +65,8 @@ def _history_outcome(hist, probe):
     ns, pool, ops, cleanup = _env()
     try:
         for o, v in hist:
-            ops[o](pool[v]())
-        return repr(ops[probe[0]](pool[probe[1]]()))
+            WS.run_op(ops, o, pool[v]())
+        return repr(WS.run_op(ops, probe[0], pool[probe[1]]()))
     finally:
         cleanup()
 
@@ -89,6 +89,14 @@ def run_one(seed, i, tier):
         o0 = rs.choice(opnames)
         hist = [(o0 if rs.random() < 0.8 else rs.choice(opnames), rs.choice(bad)) for _ in range(n)]
         probe = (rs.choice(opnames), rs.choice(["nested", "deep_valid", "dict", "list", "tuple"]))
+    if rs.random() < 0.08:
+        # LOW-STACK history: the probe's own operation was attempted before with a nearly exhausted call stack, at every
+        # head-room from 8 to 130 frames (some attempts die with RecursionError somewhere inside the classification)
+        coll = [v for v in names if v in ("dictsub", "ordereddict", "userdict", "derivedmapping", "mappingsub2", "listsub", "userlist", "deque",
+                                          "derivedseq", "namedtuple", "bothms", "tuplesub", "nested", "transient_mapping", "transient_seq")]
+        probe = (rs.choice(opnames), rs.choice(coll))
+        off = rs.randrange(2)
+        hist = [(f"lowstack{h}:{probe[0]}", probe[1]) for h in range(8 + off, 130, 2)]
     expected = fresh_outcome(*probe)
     # the warm-up + probe run in their own freshly forked child: the history is exactly `hist`
     got = run_isolated(_history_outcome, (hist, probe), timeout=60)
